@@ -1,8 +1,9 @@
 """C07 — an idempotency key takes effect at most once."""
 from checks.enginelib import *
+from checks import stresslib
 
 META = {
-    "text": 'Lean: generic component model Guard (reservation, store lookup, commit, release only after persistence) instantiated for idempotency keys; inductive invariant Guard.step_inv / init_inv (Lemmas/EngineGuard.lean); theorems key_at_most_once (a non-empty key labels at most one entry, persisted or queued, in every accepted event sequence incl. store failures and restarts), key_designates_one_entry, key_survives_restart (a crash keeps persisted entries, every later lookup of the key is answered found), retry_gets_the_entry (a lookup answered found designates the one persisted entry with the key and changes nothing), effect_needs_miss (an entry with a key is only committed under the reservation after a lookup that missed). Tie: trace validation of the real Commander against the component (guard-ik) and the Ack component; oracle: effects per key and equal outcomes of the successful duplicates.',
+    "text": 'Lean: generic component model Guard (reservation, store lookup, commit, release only after persistence) instantiated for idempotency keys; inductive invariant Guard.step_inv / init_inv (Lemmas/EngineGuard.lean); theorems key_at_most_once (a non-empty key labels at most one entry, persisted or queued, in every accepted event sequence incl. store failures and restarts), key_designates_one_entry, key_survives_restart (a crash keeps persisted entries, every later lookup of the key is answered found), retry_gets_the_entry (a lookup answered found designates the one persisted entry with the key and changes nothing), effect_needs_miss (an entry with a key is only committed under the reservation after a lookup that missed). Tie: trace validation of the real Commander against the component (guard-ik) and the Ack component; oracle: effects per key and equal outcomes of the successful duplicates. Stage 2, the reservation primitive (Referencer.take, no scheduling point inside): area engstress — goroutines released together by a spinning barrier call the real take with one key (exactly one may win) and the real Commander with one idempotency key (one effect, every accepted request answered the recorded transaction); a bounded search, rates and processors in coverage.stress.',
     "note": "Trusted: Lean kernel; event extraction; the lookup result is checked against the model's durable log at every read.",
     "technique": 'Lean 4 proof (inductive invariant of the Guard component) + trace validation + per-key oracle + regenerated commander skeleton (extract/commander -> Generated/Commander.lean on every run): well-formedness of every control path by decide, refinement of this component by the interpreted skeleton under every schedule, observed runs re-executed in the skeleton system',
     "design_ref": '5 (C07)',
@@ -10,4 +11,13 @@ META = {
 
 
 def run(ctx):
+    area = stresslib.replay_area(ctx)
+    if area == stresslib.AREA:       # a replay of the stress stage: the bounded search alone
+        ctx.l1()
+        stresslib.run_stress(ctx, 'C07')
+        return
     run_check(ctx, 'C07', ["guard-ik", "ack"], lambda scn, run: sum(1 for q in scn["requests"] if q.get("ik")) >= 2, 'at least two requests share an idempotency key')
+    if area is not None:
+        return
+    # stage 2: the reservation primitive (no scheduling point inside) under truly simultaneous goroutines
+    stresslib.run_stress(ctx, 'C07')
